@@ -13,8 +13,14 @@ empty input.
 -/
 import Kap.Proofs.C11Stream
 import Kap.Proofs.C11Defs
+import Kap.Proofs.C11TransLife
 namespace Kap.Props.C11
 open Kap.C11 Kap.C11.Spec
+
+/-- small inputs for the examples and counterexamples -/
+def ga : Tags := [("g", "a")]
+def ipt (t v : Int) : Pt := { time := t, tags := ga, fields := [("v", .int v)] }
+def spt (t : Int) (s : String) : Pt := { time := t, tags := ga, fields := [("v", .str s)] }
 
 /-! ### The node-wide creator cache -/
 
@@ -161,29 +167,44 @@ example : select .min [⟨5, .int 2, [], []⟩, ⟨3, .int 2, [], []⟩, ⟨1, .
 theorem selector_selects_a_point (fn : Fn) (xs : List QP) (p : QP) (h : select fn xs = some p) : p ∈ xs :=
   select_mem fn xs p h
 
-/-! ### Streaming transformations (elapsed, difference, cumulativeSum, movingAverage)
+/-! ### Streaming transformations (elapsed, difference, cumulativeSum, movingAverage) -/
 
-Checked on every run by the spec oracle (`Spec.transAt`: the value attached to a point by DEFINITION over
-the points seen so far) and by correspondence; proved only in part. -/
+/-- **Every history, streaming transformations**: for every history of batches, or of stream points (all
+groups interleaved, points that cannot be aggregated included), the node's output is the spec's: per point the
+value DEFINED over the points seen so far in the batch (batch mode: context realised anew for each batch) /
+in the group (stream mode: context kept for the life of the group) — `Spec.transAt`: time difference to the
+previous point, difference to the previously kept point (a point at the same time is dropped), prefix sum,
+mean of the last `n` values once `n` values were seen. `cfg.n ≥ 1`: window / unit (0 panics in the vendored
+reducers). -/
+theorem transformations_refine_spec (cfg : Cfg) (hT : cfg.fn.isTransformation = true) (hn : cfg.n ≥ 1)
+    (ms : List Msg) (h : allBatches ms ∨ allPoints ms) : run {} cfg ms = spec cfg ms := by
+  rcases h with hb | hp
+  · exact runFrom_batches_trans cfg hT hn ms hb {} [] (cacheInv_init cfg)
+  · exact runFrom_points_trans cfg hT hn ms hp {} [] (tinv_init cfg)
 
-/-- Full-strength statement, NOT proved: for every history of batches, or of stream points, a streaming
-transformation's output is the spec's. Missing: the reducer state machines of difference and movingAverage
-against `transAt`, and the lifecycle induction for `influxqlStreamingTransformGroup` (context kept for the
-whole batch / for the whole life of the group). -/
-def transformations_refine_spec_stmt : Prop :=
-  ∀ (cfg : Cfg), cfg.fn.isTransformation = true → cfg.n ≥ 1 →
-    ∀ ms : List Msg, (allBatches ms ∨ allPoints ms) → run {} cfg ms = spec cfg ms
+/-- The reducer state machines (`AggregateX` then `Emit`, as the model's `tBatchPoint` drives them) emit for
+every point exactly the definition's value for it — all four functions. -/
+theorem transformation_machines_equal_definitions (cfg : Cfg) (hT : cfg.fn.isTransformation = true)
+    (hn : cfg.n ≥ 1) (k : Kind) (xs : List QP) (p : QP) (hk : ∀ x ∈ xs ++ [p], x.val.kind = k) :
+    (tStep cfg (tRun cfg {} xs) p).2 = emitOf (transAt cfg k (xs ++ [p])) :=
+  machine_eq_transAt cfg hT hn k xs p hk
 
-/-- Proved part: the cumulativeSum reducer state machine (`AggregateX` then `Emit`, as the model's
-`tBatchPoint` drives it) emits, for every point, that point's time and the SUM OF ALL VALUES SO FAR. -/
-theorem cumulativeSum_prefix_sums_partial (cfg : Cfg) (hf : cfg.fn = .cumulativeSum) (k : Kind) (xs : List QP)
+example :
+    let cfg : Cfg := { fn := .difference, as_ := "d", n := 1 }
+    let ms := [Msg.point ga (ipt 1 5), Msg.point ga (ipt 1 9), Msg.point ga (ipt 2 2), Msg.point ga (spt 3 "x"), Msg.point ga (ipt 4 10)]
+    cfg.fn.isTransformation = true ∧ cfg.n ≥ 1 ∧ allPoints ms ∧ (run {} cfg ms).length = 2 := by
+  refine ⟨rfl, by decide, ?_, by decide⟩
+  intro m hm; simp at hm; rcases hm with rfl | rfl | rfl | rfl | rfl <;> exact ⟨_, _, rfl⟩
+
+/-- In closed form: cumulativeSum emits, for every point, that point's time and the SUM OF ALL VALUES SO FAR. -/
+theorem cumulativeSum_prefix_sums (cfg : Cfg) (hf : cfg.fn = .cumulativeSum) (k : Kind) (xs : List QP)
     (p : QP) (hk : ∀ x ∈ xs ++ [p], x.val.kind = k) :
     (tStep cfg (tRun cfg {} xs) p).2 = [{ time := some p.time, val := sumVals k (xs ++ [p]) }] :=
   cumsum_emits_prefix_sum' cfg hf k xs p hk
 
-/-- Proved part: the elapsed reducer emits, for every point after the first, the time difference to the
-previous point in units of `cfg.n` ns (truncated toward zero) at the later point's time. -/
-theorem elapsed_time_difference_partial (cfg : Cfg) (hf : cfg.fn = .elapsed) (xs : List QP) (a b : QP) :
+/-- In closed form: elapsed emits, for every point after the first, the time difference to the previous point
+in units of `cfg.n` ns (truncated toward zero) at the later point's time. -/
+theorem elapsed_time_difference (cfg : Cfg) (hf : cfg.fn = .elapsed) (xs : List QP) (a b : QP) :
     (tStep cfg (tRun cfg {} (xs ++ [a])) b).2 =
       [{ time := some b.time, val := .int (wrap64 ((b.time - a.time).tdiv cfg.n)) }] :=
   elapsed_emits_time_difference' cfg hf xs a b
@@ -194,9 +215,6 @@ example : (tStep { fn := .cumulativeSum, as_ := "c" } (tRun { fn := .cumulativeS
 /-! ### The defects of snapshot ef0888e, on the model of the old code (each replayed on the real code by the
 corpus file named; each repaired by a `fix:` commit, see findings/C11.txt) -/
 
-def ga : Tags := [("g", "a")]
-def ipt (t v : Int) : Pt := { time := t, tags := ga, fields := [("v", .int v)] }
-def spt (t : Int) (s : String) : Pt := { time := t, tags := ga, fields := [("v", .str s)] }
 
 /-- Defect 1 (repaired by d326602): with the Time-0 seeds of snapshot ef0888e, `sum('v').usePointTimes()` stamps
 the sum with 1970-01-01 instead of the batch time (corpus/C11/fixed-seed-time-zero.ops). -/
